@@ -355,6 +355,7 @@ def run_steps(eng, lib, name):
         w = sc.w
         ctx.callstack.append(fn)
         tag = f"steps/{name}"
+        ctx.scenario_tag = tag
         # I4 for every object at entry (typing_now must hold initially as well)
         ctx.assume_forall_loc(typing_now(sc, w.fs0))
         state = {"n": 0}
@@ -500,6 +501,7 @@ def run_fault(eng, lib, name, persist):
         w = sc.w
         ctx.callstack.append(fn)
         tag = f"fault[{mode}]/{name}"
+        ctx.scenario_tag = tag
         ctx.fault_mode = {"budget": 1, "persist": persist, "persistent": set(), "injected": []}
         memo = {}
         from vc.contract import clone
